@@ -66,7 +66,14 @@ def static_checks(ssa):
     """unique definitions, phis at block heads, versions declared, signals unversioned."""
     problems = []
     decl = {tuple(d[0][1:4]): d[1] for d in ssa[3][1:]}
+    # the keys (name, suffix) of the locals: a declared version of a local, or a parameter
+    local_keys = set(tuple(d[0][1:3]) for d in ssa[3][1:] if d[1] == "local" and d[0][3] != "-") | set(tuple(q[1:3]) for q in ssa[2][1:])
     defs = {}
+    # "every version is covered by a declaration": by the declaration TABLE (checked per occurrence below) and by the
+    # re-issued Declaration STATEMENTS: every versioned name that occurs is listed by a declaration statement of the
+    # graph, or is a version of a parameter (parameters have no declaration statement)
+    stmt_declared = set(tuple(n[1:4]) for b in ssa[4][1:] for s in b[3] if s[0] == "decl" for n in s[2])
+    param_keys = set(tuple(q[1:3]) for q in ssa[2][1:])
     for b in ssa[4][1:]:
         head = True
         for s in b[3]:
@@ -80,9 +87,17 @@ def static_checks(ssa):
                 if k in defs:
                     problems.append("two defining statements for %s" % (k,))
                 defs[k] = True
+            # a read (phi arguments apart: the unversioned name there records a path on which the variable is still
+            # unassigned) or an assignment of a local must name a version
+            for v in stmt_reads(s) + ([s[2]] if s[0] == "subst" else []):
+                if v[3] == "-" and tuple(v[1:3]) in local_keys:
+                    problems.append("block %s: the local variable %s is %s without a version (statement kind %s)"
+                                    % (b[1], sexp.unhex(v[1]), "assigned" if (s[0] == "subst" and v is s[2]) else "read", s[0]))
             occ = stmt_reads(s) + ([s[2]] + (s[4][1] if isphi else []) if s[0] == "subst" else []) + (s[2] if s[0] == "decl" else [])
             for v in occ:
                 k = tuple(v[1:4])
+                if v[3] != "-" and k not in stmt_declared and tuple(v[1:3]) not in param_keys:
+                    problems.append("versioned name %s.%s is listed by no declaration statement of the graph" % (sexp.unhex(v[1]), v[3]))
                 if v[3] != "-":
                     if decl.get(k) != "local":
                         problems.append("versioned name %s is not a declared local" % (k,))
@@ -181,7 +196,9 @@ def run(ctx, proofs):
     mlines, mkeys = [], []
     status = {}
     failing, shapes = [], set()
+    features = {}
     paths = 0
+    capped = 0
     for (i, kv, kd), o in impl.items():
         tag = o.split(" ", 1)[0].strip("()")
         status[tag] = status.get(tag, 0) + 1
@@ -194,6 +211,7 @@ def run(ctx, proofs):
         if tag != "ok":
             continue
         x = sexp.parse(o)
+        propeng.features_of(x[1], features)
         mlines.append("ssa %s %s" % (sexp.show(x[1]), sexp.show(x[4])))
         mkeys.append((i, x[2]))
         lines.append("ssacheck %s %s" % (sexp.show(x[2]), sexp.show(x[3])))
@@ -203,6 +221,7 @@ def run(ctx, proofs):
         probs = static_checks(x[2])
         wp, cnt = walk_paths(x[2])
         paths += cnt
+        capped += cnt > 400
         probs += wp
         if not erase_ok(x[1], x[2]):
             probs.append("erasing versions and phis does not give back the original statements")
@@ -250,13 +269,22 @@ def run(ctx, proofs):
         elif proofs["failures"]:
             ctx.violation("proof obligations of C14 no longer check: " + "; ".join(proofs["failures"])[:400],
                           {"broken": "props/C14.v", "failures": proofs["failures"]}, no_input=True)
+    need = [f for f in propeng.FEATURES if f != "dimension_with_value_claim_on_a_non_literal"]
+    missing = [f for f in need if not features.get(f)]
+    if missing:
+        ctx.violation("degenerate exploration: features named in the rule text were never produced in this run: %s" % ", ".join(missing),
+                      {"broken": "generator coverage (lib/proggen.py)", "missing": missing, "counted": features}, no_input=True)
     ctx.coverage.update({
+        "features_produced": {f: features.get(f, 0) for f in need},
+        "graphs_not_meeting_the_hypotheses_of_the_construction_theorems": len(hyp_bad),
         "evaluations": len(impl),
         "programs": len(impl),
         "distinct_nontrivial": len(shapes),
         "rule": "seeded generator lib/proggen.py (shadowed names, arrays updated element-wise, variables assigned in one branch only, nested loops, "
-                "reassigned parameters) + corpus; every SSA graph produced by the real into_ssa is (a) validated by the Coq-verified "
-                "SsaCheck.ssa_check with the implementation's dominator tree as certificate, (b) walked by an independent Python path oracle "
+                "reassigned parameters, components and ports, dimensions that read variables - which the conversion must give a version -, signals declared "
+                "under control flow; `features_produced` counts the lifted definitions with each feature, and the run fails if one is zero) + corpus; every SSA graph produced by the real into_ssa is (a) validated by the Coq-verified "
+                "SsaCheck.ssa_check with the implementation's dominator tree as certificate, together with SsaCheck.unversioned_reads_ok (no statement reads a "
+                "local or a parameter without a version; meaning: lemma Proofs.SsaUnversioned.unversioned_reads_ok_spec), (b) walked by an independent Python path oracle "
                 "(each block at most 3 times per path), (c) compared with the pre-SSA graph by the Coq erasure validator SsaErase.erase_check (and by a Python erasure), (d) compared, after canonical renumbering, with "
                 "the output of the construction mirror Model.Ssa.into_ssa run on the real pre-SSA graph and the real dominance frontiers/tree; distinct-nontrivial = distinct "
                 "(blocks, phi statements, declared versions) shapes among converted graphs",
@@ -270,8 +298,12 @@ def run(ctx, proofs):
         "construction_mirror_compared": len(mouts),
         "construction_mirror_disagreements": len(disagreements),
         "paths_walked_by_oracle": paths,
+        "definitions_where_the_path_walk_stopped_at_its_cap_of_400_paths": capped,
         # rewritten after the second audit: the dominance half is no longer open
-        "open_statements": ["none as a Coq statement: that the output of the construction is an erasure of its input with phis at block heads, unique definitions "
+        "open_statements": ["OPEN (third audit): `forall frontier children c c', Ssa.into_ssa frontier children c = SOk c' -> pre_ssa_ok c -> unversioned_reads_ok c' = true` - that the "
+                            "construction gives a version to EVERY read of a local, dimensions of declarations included; SsaCheck.ssa_check (and the theorems about it) speak about "
+                            "versioned reads only and accept any unversioned read; evaluated per explored graph instead (validator condition unversioned_reads_ok + path-walk oracle)",
+                            "apart from that, none as a Coq statement: that the output of the construction is an erasure of its input with phis at block heads, unique definitions "
                             "and unmixed keys (C14_construction_*) AND that every read names the running version on every path from the entry (the dominance "
                             "half, Cytron et al.'s theorem for this renaming scheme: C14_construction_paths_ok, C14_construction_read_defined_on_every_path) "
                             "are proved for ALL graphs, and C14_construction_paths_ok_on_computed_tables discharges the dominance hypotheses for the tables "
